@@ -58,6 +58,10 @@ class Death:
             return "ubsan:" + (m.group(1).strip().replace(" ", "-")[:40] if m else "other")
         if "MemorySanitizer" in s:
             return "msan:use-of-uninitialized-value"
+        if "ThreadSanitizer" in s:
+            import re
+            m = re.search(r"SUMMARY: ThreadSanitizer: ([A-Za-z-]+(?: race)?)", s)
+            return "tsan:" + (m.group(1).replace(" ", "-") if m else "other")
         if "Assertion" in s and "failed" in s:
             return "assert"
         if self.rc is not None and self.rc < 0:
@@ -71,6 +75,10 @@ class Death:
         """First library frame named in the report (for violation keys)."""
         import re
         for m in re.finditer(r"#\d+ 0x[0-9a-f]+ in (\S+) (\S+)", self.stderr):
+            fn, loc = m.group(1), m.group(2)
+            if "/lib/" in loc and "/harness/" not in loc and "sanitizer" not in loc:
+                return fn
+        for m in re.finditer(r"#\d+ (\S+) (\S+) \(", self.stderr):
             fn, loc = m.group(1), m.group(2)
             if "/lib/" in loc and "/harness/" not in loc and "sanitizer" not in loc:
                 return fn
